@@ -10,7 +10,7 @@ from ..core.explore import Check
 from ..lang import refint
 
 PAYLOADS = ["int", "str", "list", "obj"]
-CARRIERS = ["var", "param", "result", "elem", "field", "builtin", "literal"]
+CARRIERS = ["var", "param", "result", "elem", "field", "builtin", "literal", "mapentry"]
 CONSTRUCTS = ["eqnil", "neqnil", "get", "or", "or-var", "or-chain", "unwrap-stmt", "unwrap-if", "unwrap-while", "unwrap-expr",
               "eq-plain", "plain-eq", "or-operand",
               # compositions: `get` applied directly to an `or` form whose fallback is a plain value / an optional variable (nil, present) / an optional
@@ -78,6 +78,10 @@ def carrier_setup(payload, carrier, is_present):
         return [("assign", "l", ("list", [present(payload), ("nil",)]), f"[{T}?...]", ())], ("index", V("l"), ("int", 0 if is_present else 1)), None
     if carrier == "field":
         return [("assign", "h", ("new", "H", [("int", k)]), None, ())], ("field", V("h"), "f"), None
+    if carrier == "mapentry":
+        # a map lookup: the value of a present key, nil for an absent one
+        setup = [("assign", "mq", ("maplit", "str", T, [(("str", "here"), present(payload))] if is_present else []), None, ())]
+        return setup, ("index", V("mq"), ("str", "here")), None
     if carrier == "builtin":
         if payload != "int":
             return None
@@ -238,7 +242,7 @@ class C12(Check):
     id = "C12"
     level = "model_checking"
     rule = ("all programs (payload in {int, str, [int...], class C}) x (carrier in {variable, parameter, function result, list element, "
-            "field, built-in result (index_of), literal}) x (nil | present) x (construct in {== nil (both operand orders), != nil, get, "
+            "field, built-in result (index_of), literal, map lookup (present / absent key)}) x (nil | present) x (construct in {== nil (both operand orders), != nil, get, "
             "(x) or y with a logging y, (x) or v with a variable mentioned nowhere else, chained or, ?= as statement / expression value / if condition / while condition, present == plain, "
             "plain == present, `get` applied directly to an `or` form with a plain / optional-variable (nil, present) / optional-result (nil, present) fallback, an `or` form with an optional fallback compared with nil}) x (position in {declaring block, nested block, else block, doubly nested block, loop body, nested function, closure called after the function that made it (and owns carrier and fallback) has returned}) "
             "x (?= target declared in the same block | in the enclosing block).  Oracle = reference interpreter; for a failing `get` the "
